@@ -48,6 +48,12 @@ Definition s_panic : bytes := [112;97;110;105;99].
 Definition s_io : bytes := [99;104;117;110;107].   (* "chunk": PayloadError::Incomplete(Some(io)) *)
 Definition s_incomplete : bytes := [105;110;99;111;109;112;108;101;116;101].
 
+(* bodies longer than 1 KiB are rendered as (length, polynomial digest, first 32 bytes) *)
+Definition digest (x : bytes) : N := fold_left (fun d b => (d * 31 + b) mod 1000000007) x 0.
+Definition VBody (x : bytes) : V :=
+  if 1024 <? lenN x then VT "okbig" [VN (lenN x); VN (digest x); VBytes (firstn 32 x)]
+  else VT "ok" [VBytes x].
+
 Definition VOutcome (o : outcome) : V :=
   match o with
   | OSendErr SDisconnected => VT "senderr" [VBytes s_disconnected]
@@ -58,7 +64,7 @@ Definition VOutcome (o : outcome) : V :=
       VT "resp" [VN st;
                  match b with
                  | None => VT "dropped" []
-                 | Some (BOk x) => VT "ok" [VBytes x]
+                 | Some (BOk x) => VBody x
                  | Some (BErr PEIo) => VT "err" [VBytes s_io]
                  | Some (BErr PEIncomplete) => VT "err" [VBytes s_incomplete]
                  | Some BTimeout => VT "err" [VBytes s_timeout]
